@@ -100,11 +100,11 @@ REG_CARRIERS = {
  'proof_backup_restore':   (['C04', 'C11'], [r'RegistryT<.*>::backup', r'RegistryT<.*>::restore', r'RegistryT<.*>::operator!=']),
  'proof_clear':            (['C01', 'C11'], [r'RegistryT<.*>::clearRequests', r'RegistryT<.*>::clear\(\)', r'RegistryT<.*>::empty']),
 }
-for variant, defs in (('ortho', {}), ('compo', {'NO_ORTHO': None})):
+for variant, defs in (('ortho', {}), ('compo', {'NO_ORTHO': None}), ('ortho2', {'TWO_ORTHO': None})):
     for entry, (props, car) in REG_CARRIERS.items():
         job(id='B.registry.%s.%s' % (variant, entry[6:]), tu='tier_b/registry.cpp', defs=defs, entry=entry, props=props, unwind=12,
             unwindset={'verif_havoc.0': 4096}, objbits=10, carriers=car, timeout=600,
-            case_key='RegistryT %s, symbolic tables (%s)' % ('general' if variant == 'ortho' else 'ORTHO_COUNT==0', '10 states/3 compo/1 ortho' if variant == 'ortho' else '8 states/3 compo'))
+            case_key='RegistryT %s, symbolic tables (%s)' % ('ORTHO_COUNT==0' if variant == 'compo' else 'general', {'ortho': '10 states/3 compo/1 ortho', 'compo': '8 states/3 compo', 'ortho2': '10 states/2 compo/2 ortho'}[variant]))
 
 # ------------------------------------------------------------------ Tier C: step proofs on sample machines
 # python mirror of each machine's declaration (parent, kind) -- only used to enumerate case keys; the C++ side
@@ -112,7 +112,7 @@ for variant, defs in (('ortho', {}), ('compo', {'NO_ORTHO': None})):
 class Machine:
     def __init__(self, name, tu, parents, kinds, strategies=None, defs=None, unwind=12):
         self.name, self.tu, self.parents, self.kinds, self.defs, self.unwind = name, tu, parents, kinds, defs or {}, unwind
-        self.n = len(parents)
+        self.n = len(parents); self.root_stub = False
     def children(self, s): return [c for c in range(self.n) if self.parents[c] == s]
     def count(self, s):
         if self.kinds[s] == 'L': return 1
@@ -135,15 +135,17 @@ class Machine:
         return out
 
 M_RES = Machine('resumable', 'tier_c/m_resumable.cpp', [-1, 0, 0, 2, 2, 0], ['C', 'L', 'C', 'L', 'L', 'L'])
-MACHINES = [M_RES]
+M_ORTHO = Machine('ortho', 'tier_c/m_ortho.cpp', [-1, 0, 1, 2, 2, 1, 5, 5, 0], ['C', 'O', 'C', 'L', 'L', 'C', 'L', 'L', 'L'], unwind=14); M_ORTHO.root_stub = True
+M_NEST = Machine('nested', 'tier_c/m_nested.cpp', [-1, 0, 1, 2, 2, 1, 0], ['C', 'C', 'C', 'L', 'L', 'L', 'L'], unwind=14)
+MACHINES = [M_RES, M_ORTHO, M_NEST]
 KIND_NAMES = {0: 'change', 1: 'restart', 2: 'resume', 3: 'select', 4: 'utilize', 5: 'randomize', 6: 'schedule'}
 STEP_CARRIERS = [r'R_<.*>::processTransitions', r'R_<.*>::applyRequest', r'RegistryT<.*>::requestImmediate', r'C_<.*>::deepChangeToRequested', r'C_<.*>::deepForwardActive',
                  r'S_<.*>::deepEnter', r'S_<.*>::deepExit', r'C_<.*>::deepEnter', r'C_<.*>::deepExit', r'R_<.*>::approvedByGuards']
-def machine_jobs(m, kinds=(0, 1, 2), upd_kinds=(0, 1, 2, 6), tier='quick'):
+def machine_jobs(m, kinds=(0, 1, 2), upd_kinds=(0, 1, 2, 6), tier='quick', q2_tier='thorough'):
     base = dict(tu=m.tu, defs=m.defs, unwind=m.unwind, objbits=12, timeout=900)
     P = ['C01', 'C02', 'C03', 'C04', 'C13', 'C11']
     for e in ('proof_init', 'proof_exit_enter', 'proof_reset', 'proof_cfg_count'):
-        job(id='C.%s.%s' % (m.name, e[6:]), entry=e, props=P if e != 'proof_cfg_count' else ['C01'], tier=tier, carriers=[r'R_<.*>::initialEnter', r'R_<.*>::finalExit'] if e == 'proof_init' else [],
+        job(id='C.%s.%s' % (m.name, e[6:]), entry=e, props=P if e != 'proof_cfg_count' else ['C01', 'C02', 'C03', 'C04', 'C05'], tier=tier, carriers=[r'R_<.*>::initialEnter', r'R_<.*>::finalExit'] if e == 'proof_init' else [],
             case_key='%s/%s' % (m.name, e[6:]), **base)
     for k in kinds:
         for d in range(1, m.n):
@@ -154,14 +156,20 @@ def machine_jobs(m, kinds=(0, 1, 2), upd_kinds=(0, 1, 2, 6), tier='quick'):
         act = m.active_set(c)
         job(id='C.%s.upd.c%d.none' % (m.name, c), entry='step_update', key=[c, -1, 0, 0], props=P, tier=tier, carriers=[r'R_<.*>::update', r'R_<.*>::processRequest'],
             case_key='%s/update/cfg=%d/no request' % (m.name, c), **base)
+        deepest = max(act)            # quick tier: one issuer per configuration (the last active state in id order); thorough: every active state
         for i in act:
-            if i == 0: continue
+            if i == 0 and not m.root_stub: continue
             for k in upd_kinds:
                 for d in range(1, m.n):
-                    job(id='C.%s.upd.c%d.i%d.%s.d%d' % (m.name, c, i, KIND_NAMES[k], d), entry='step_update', key=[c, i, k, d], props=P, tier=tier,
+                    job(id='C.%s.upd.c%d.i%d.%s.d%d' % (m.name, c, i, KIND_NAMES[k], d), entry='step_update', key=[c, i, k, d], props=P, tier=tier if i == deepest else 'thorough',
                         carriers=[r'R_<.*>::update', r'FullControlBaseT<.*>::changeTo'], case_key='%s/update/cfg=%d/issuer=%d/%s/dest=%d' % (m.name, c, i, KIND_NAMES[k], d), **base)
+        for e in ('step_order_update', 'step_order_react', 'step_order_query'):
+            job(id='C.%s.%s.c%d' % (m.name, e[5:], c), entry=e, key=[c], props=['C05', 'C03', 'C11'], tier=tier,
+                carriers=[r'R_<.*>::update', r'R_<.*>::react', r'R_<.*>::query'] if e == 'step_order_react' else [], case_key='%s/%s/cfg=%d' % (m.name, e[5:], c), **base)
     for d1 in range(1, m.n):
         for d2 in range(1, m.n):
-            job(id='C.%s.q2.d%d.d%d' % (m.name, d1, d2), entry='step_queued2', key=[0, d1, 0, d2], props=['C01', 'C02', 'C03', 'C04', 'C11'], tier=tier, carriers=[r'R_<.*>::changeTo'],
+            job(id='C.%s.q2.d%d.d%d' % (m.name, d1, d2), entry='step_queued2', key=[0, d1, 0, d2], props=['C01', 'C02', 'C03', 'C04', 'C11'], tier=q2_tier, carriers=[r'R_<.*>::changeTo'],
                 case_key='%s/queued pair/change %d then change %d' % (m.name, d1, d2), **base)
-for m in MACHINES: machine_jobs(m)
+machine_jobs(M_RES, q2_tier='quick')
+machine_jobs(M_NEST, q2_tier='quick')
+machine_jobs(M_ORTHO)
